@@ -256,3 +256,39 @@ def selection_failures(cfg, pred, ref, variants, groups=None):
                 if isinstance(lst, list) and isinstance(t.get("tp"), int) and len(lst) != t["tp"]:
                     book.append(f"metric list {v}: {g}: list of {m} has {len(lst)} entries but tp = {t['tp']}")
     return inv, book, ran
+
+
+# ----------------------------------------------------------------------------------------------------------------
+# the same evaluations in a child interpreter started with -O (assert statements are not executed)
+# ----------------------------------------------------------------------------------------------------------------
+def optimized_differences(ctx, cases, mode="python -O", **child_kw):
+    """cases: list of dicts {cfg, pred, ref, groups?, global_metrics?}.  Runs them here and in a child interpreter and
+    returns [(case index, description of the first difference)]; [] when the child could not be started (noted)."""
+    import forms
+    j = lambda a: {"data": a.astype(np.int64).ravel().tolist(), "dtype": str(a.dtype), "shape": list(a.shape)}
+    tasks = [{"kind": "evaluate", "cfg": c["cfg"], "pred": j(c["pred"]), "ref": j(c["ref"]), "groups": c.get("groups"),
+              "global_metrics": list(c.get("global_metrics", ()))} for c in cases]
+    kw = {"optimize": True}
+    doc_extra = {k: child_kw.pop(k) for k in ("start_method", "serial_pool", "one_core") if k in child_kw}
+    kw.update(child_kw)
+    res = forms.run_child(dict({"tasks": [{"kind": "info"}] + tasks}, **doc_extra), **kw)
+    if isinstance(res, dict) or not isinstance(res[0], dict) or (kw["optimize"] and res[0].get("debug") is not False):
+        ctx.notes.append(f"child interpreter ({mode}) could not be started: " + str(res)[:200])
+        return []
+    out = []
+    for k, (c, o) in enumerate(zip(cases, res[1:])):
+        h = run_impl(c["cfg"], c["pred"], c["ref"], groups=c.get("groups"), global_metrics=c.get("global_metrics", ()))
+        if isinstance(h, str) or isinstance(o, str):
+            if h != o:
+                out.append((k, f"this process: {h if isinstance(h, str) else 'a result'}, child ({mode}): {o if isinstance(o, str) else 'a result'}"))
+            continue
+        for g, s in h.items():
+            t = o.get(g)
+            if t is None:
+                out.append((k, f"group {g} missing in the child's result"))
+                break
+            bad = [key for key, val in s.items() if key in t and not _same(val, t[key])]
+            if bad:
+                out.append((k, f"{g}.{bad[0]} = {t[bad[0]]!r} in the child ({mode}), {s[bad[0]]!r} in this process"))
+                break
+    return out
